@@ -1633,20 +1633,24 @@ class _Slots:
 
     # ------------------------------------------------------------------ hand-back summaries
     @staticmethod
-    def excuse(names):
+    def excuse(names, fn=None):
         """fact(expr, polarity): the branch outcome says that none of the records `names` (dotted) is owed to the pool:
         no record / in-use marker already cleared / marker is somebody else's / the holder is already finalized."""
         names = set(names)
         marks = {n + ".fairy_ref" for n in names}
         holders = {n.rsplit(".", 1)[0] + ".dbapi_connection" for n in names if "." in n}
 
+        def txt(e):
+            # (through one single-assignment local: `owner = rec.fairy_ref` ... `if ref is not owner`)
+            return _operand(fn, e) if fn is not None else dotted(e)
+
         def fact(a, p):
-            d = dotted(a)
+            d = txt(a) if isinstance(a, (ast.Name, ast.Attribute)) else None
             if d is not None:
                 return (d in names or d in marks or d in holders) and not p
             if not (isinstance(a, ast.Compare) and len(a.ops) == 1):
                 return False
-            l, r_ = dotted(a.left), dotted(a.comparators[0])
+            l, r_ = txt(a.left), txt(a.comparators[0])
             op = a.ops[0]
             same = (isinstance(op, (ast.Is, ast.Eq)) and p) or (isinstance(op, (ast.IsNot, ast.NotEq)) and not p)
             diff = (isinstance(op, (ast.Is, ast.Eq)) and not p) or (isinstance(op, (ast.IsNot, ast.NotEq)) and p)
@@ -1731,6 +1735,7 @@ class _Slots:
         self._busy_hb.add(k)
         try:
             from ._helpers_str_l import contradicted
+            fi = normal_form(self.ctx, fi, inline=False, alias="dotted", volatile=VOLATILE)   # (aliases only: the callees are the point)
             g = rcfg(self.ctx, fi)
             sites = self.sites(fi, g, depth)
             res = set()
@@ -1739,7 +1744,7 @@ class _Slots:
                 for canon, (names, nodes) in self.groups(fi, sites).items():
                     if canon.split(".")[0] not in fi.params:
                         continue
-                    full, part = _edges_establishing(g, fi.node, self.excuse(names))
+                    full, part = _edges_establishing(g, fi.node, self.excuse(names, fi.node))
                     w = g.witness([g.entry], [g.exit], avoid=nodes,
                                   edge_ok=both(no_exc, cut_edges(infeasible), cut_edges(full)))
                     if w is None:
@@ -1821,7 +1826,7 @@ def every_exit_hands_back(ctx):
                 if isinstance(st, (ast.Assign, ast.AnnAssign)) and val is not None and not (isinstance(val, ast.Constant) and val.value is None):
                     starts += [s_ for s_, lab in g.succ[b_] if lab != "exc"]
             ctx.require(starts, f"{f.key}: cannot tell from where `{canon}` is held")
-            full, part = _edges_establishing(g, f.node, sl.excuse(names))
+            full, part = _edges_establishing(g, f.node, sl.excuse(names, f.node))
             avoid = set(nodes) | set(binds)
             ok_edges = both(quiet(g), no_fault, cut_edges(full))
             # path-sensitive on flag locals (`done = False ... finally: if not done: <hand back>`)
